@@ -57,6 +57,34 @@ pub fn print<A: Clone + PartialEq>(v: &SV<A>, ids: &mut Ids, out: &mut String) {
     out.push(')');
 }
 
+/// VM-dump form: opaque ids (of `value` / `callData` nodes) are printed as the instruction
+/// pointer at which the node was created, so the text does not depend on random `Uuid`s.
+pub fn print_ip<A: Clone + PartialEq>(v: &SV<A>, out: &mut String) {
+    out.push('(');
+    let kind = kind_name(v.data());
+    out.push_str(kind);
+    out.push(' ');
+    out.push_str(&v.size().to_string());
+    let ip = v.instruction_pointer();
+    let at = attrs(v.data(), &mut |_| ip as usize);
+    for a in at {
+        out.push(' ');
+        out.push_str(&a);
+    }
+    out.push_str(" |");
+    for k in kids(v.data()) {
+        out.push(' ');
+        print_ip(&k, out);
+    }
+    out.push(')');
+}
+
+pub fn to_text_ip<A: Clone + PartialEq>(v: &SV<A>) -> String {
+    let mut s = String::new();
+    print_ip(v, &mut s);
+    s
+}
+
 pub fn to_text<A: Clone + PartialEq>(v: &SV<A>, ids: &mut Ids) -> String {
     let mut s = String::new();
     print(v, ids, &mut s);
